@@ -79,7 +79,7 @@ pub fn run(args: &[String]) {
         let scalar_q = x0 + (xend - x0) * rng.range(0.0, 1.0);
         // --- the case, for Python
         let evs = if nev == 0 { "null".to_string() } else {
-            format!("[{}]", p.events.iter().map(|e| format!("{{\"a\":{},\"b\":{},\"c\":{},\"dir\":{},\"terminal\":{}}}", hq(e.a), hql(&e.b), hq(e.c), e.dir, e.terminal.is_some())).collect::<Vec<_>>().join(","))
+            format!("[{}]", p.events.iter().map(|e| format!("{{\"a\":{},\"b\":{},\"c\":{},\"dir\":{},\"pydir\":{},\"terminal\":{}}}", hq(e.a), hql(&e.b), hq(e.c), e.dir, (e.dir as f64) * [1.0, 0.5, 3.0, 0.25][(id + e.dir.unsigned_abs() as usize + e.b.len()) % 4], e.terminal.is_some())).collect::<Vec<_>>().join(","))
         };
         writeln!(cf, "{{\"type\":\"solve\",\"id\":{},\"kind\":\"{:?}\",\"method\":{},\"x0\":{},\"xend\":{},\"rtol\":{},\"atol\":{},\"first_step\":{},\"max_step\":{},\"max_steps\":{},\"t_eval\":{},\"dense\":{},\"events\":{},\"events_as_list\":{},\"jac\":\"{}\",\"args\":{},\"queries\":{},\"scalar_query\":{}}}",
             id, kind, pyname.map(|s| format!("\"{s}\"")).unwrap_or("null".into()), hq(x0), hq(xend), opt(tol.map(|t| t.0)), opt(tol.map(|t| t.1)), opt(first), opt(maxstep),
